@@ -315,4 +315,122 @@ theorem transferFromL_spec (s : State) (operator from_ to : Nat) (amount : Int) 
           by rw [mv.minted, ho.2.2.2.1], by rw [mv.burnt, ho.2.2.2.2], by rw [mv.supply, ho.2.2.1],
           fun x => by rw [mv.bal x, ho.bal]⟩⟩
 
+/-! ### allowances of other owners are untouched -/
+
+/-- allowances of every owner other than `o` are the same in `s'` as in `s` -/
+def AllowFrame (s s' : State) (o : Nat) : Prop :=
+  ∀ o' p, o' ≠ o → allowance s' o' p = allowance s o' p
+
+theorem AllowFrame.refl (s : State) (o : Nat) : AllowFrame s s o := fun _ _ _ => rfl
+theorem AllowFrame.trans {a b c : State} {o : Nat} (h1 : AllowFrame a b o) (h2 : AllowFrame b c o) :
+    AllowFrame a c o := fun o' p h => (h2 o' p h).trans (h1 o' p h)
+theorem AllowFrame.ofEq {s s' : State} (h : s'.allowances = s.allowances) (o : Nat) : AllowFrame s s' o :=
+  fun _ _ _ => by simp [allowance, h]
+
+theorem setAllowanceRaw_frame (s : State) (o p : Nat) (v : Int) : AllowFrame s (setAllowanceRaw s o p v) o := by
+  intro o' p' h
+  simp only [allowance, setAllowanceRaw]
+  rw [alookup_aset_other _ _ _ _ h]
+
+theorem changeAllowance_frame (s : State) (o p : Nat) (d : Int) : AllowFrame s (changeAllowance s o p d) o :=
+  setAllowanceRaw_frame _ _ _ _
+
+theorem useAllowance_frame (s : State) (op ow : Nat) (a : Int) (s' : State)
+    (h : useAllowance s op ow a = .ok s') :
+    AllowFrame s s' ow ∧ (op ≠ ow → allowance s ow op ≠ 0) := by
+  unfold useAllowance at h
+  simp only [guard_ok] at h
+  obtain ⟨h1, h⟩ := h
+  refine ⟨?_, fun hne h0 => h1 (Or.inl ⟨h0, hne⟩)⟩
+  by_cases ha : a = 0
+  · simp [ha] at h; subst h; exact AllowFrame.refl _ _
+  · simp [ha] at h; subst h; exact changeAllowance_frame _ _ _ _
+
+theorem setInfinite_frame (ops : List Nat) : ∀ (s : State) (o : Nat), AllowFrame s (setInfinite s o ops) o := by
+  induction ops with
+  | nil => intro s o; exact AllowFrame.refl _ _
+  | cons p rest ih => intro s o; exact AllowFrame.trans (setAllowanceRaw_frame s o p _) (ih _ o)
+
+theorem mintL_frame (s : State) (to : Nat) (amount : Int) (ops : List Nat) (s' : State)
+    (h : mintL s to amount ops = .ok s') : AllowFrame s s' to := by
+  unfold mintL at h
+  cases hc : checkAmount amount with
+  | error e => simp [hc] at h
+  | ok u =>
+    cases u
+    simp only [hc] at h
+    cases h1 : changeBalance s to amount with
+    | error e => simp [h1] at h
+    | ok s1 =>
+      simp only [h1] at h
+      obtain ⟨⟨_, al1, _, _, _⟩, _⟩ := changeBalance_spec _ _ _ _ h1
+      cases h2 : changeSupply s1 amount with
+      | error e => simp [h2] at h
+      | ok s2 =>
+        simp only [h2] at h
+        obtain ⟨_, _, _, al2, _, _⟩ := changeSupply_spec _ _ _ h2
+        injection h with h; subst h
+        refine AllowFrame.trans (AllowFrame.ofEq ?_ to) (setInfinite_frame ops _ to)
+        simp [al2, al1]
+
+theorem burnFromL_frame (s : State) (operator owner : Nat) (amount : Int) (s' : State)
+    (h : burnFromL s operator owner amount = .ok s') :
+    AllowFrame s s' owner ∧ allowance s owner operator ≠ 0 := by
+  unfold burnFromL at h
+  cases hc : checkAmount amount with
+  | error e => simp [hc] at h
+  | ok u =>
+    cases u
+    simp only [hc] at h
+    by_cases hop : operator = owner
+    · simp [hop] at h
+    · simp only [hop, if_false] at h
+      cases h0 : useAllowance s operator owner amount with
+      | error e => simp [h0] at h
+      | ok s0 =>
+        simp only [h0] at h
+        obtain ⟨f0, n0⟩ := useAllowance_frame _ _ _ _ _ h0
+        cases h1 : changeBalance s0 owner (-amount) with
+        | error e => simp [h1] at h
+        | ok s1 =>
+          simp only [h1] at h
+          obtain ⟨⟨_, al1, _, _, _⟩, _⟩ := changeBalance_spec _ _ _ _ h1
+          cases h2 : changeSupply s1 (-amount) with
+          | error e => simp [h2] at h
+          | ok s2 =>
+            simp only [h2] at h
+            obtain ⟨_, _, _, al2, _, _⟩ := changeSupply_spec _ _ _ h2
+            injection h with h; subst h
+            exact ⟨AllowFrame.trans f0 (AllowFrame.ofEq (by simp [al2, al1]) owner), n0 hop⟩
+
+theorem transferL_allow (s : State) (from_ to : Nat) (amount : Int) (s' : State)
+    (h : transferL s from_ to amount = .ok s') : s'.allowances = s.allowances := by
+  unfold transferL at h
+  simp only [guard_ok] at h
+  obtain ⟨_, h⟩ := h
+  cases hc : checkAmount amount with
+  | error e => simp [hc] at h
+  | ok u => cases u; simp only [hc] at h; exact (makeTransfer_spec _ _ _ _ _ h).2.1
+
+theorem transferFromL_frame (s : State) (operator from_ to : Nat) (amount : Int) (s' : State)
+    (h : transferFromL s operator from_ to amount = .ok s') :
+    AllowFrame s s' from_ ∧ allowance s from_ operator ≠ 0 := by
+  unfold transferFromL at h
+  simp only [guard_ok] at h
+  obtain ⟨_, h⟩ := h
+  cases hc : checkAmount amount with
+  | error e => simp [hc] at h
+  | ok u =>
+    cases u
+    simp only [hc] at h
+    by_cases hop : operator = from_
+    · simp [hop] at h
+    · simp only [hop, if_false] at h
+      cases h0 : useAllowance s operator from_ amount with
+      | error e => simp [h0] at h
+      | ok s0 =>
+        simp only [h0] at h
+        obtain ⟨f0, n0⟩ := useAllowance_frame _ _ _ _ _ h0
+        exact ⟨AllowFrame.trans f0 (AllowFrame.ofEq (makeTransfer_spec _ _ _ _ _ h).2.1 from_), n0 hop⟩
+
 end BA.Datacap
